@@ -4,12 +4,22 @@ package wire
 // of spec/MCWire.tla (Table); which reaction a class requires is stated there, never here.
 
 import (
+	"bytes"
+	"crypto/aes"
+	"crypto/cipher"
 	"crypto/ecdsa"
+	"crypto/elliptic"
+	"crypto/hmac"
 	"crypto/rand"
+	"crypto/sha256"
 	"encoding/binary"
+	"encoding/json"
 	"fmt"
 	"math/big"
 	mrand "math/rand"
+	"sort"
+	"strings"
+	"sync"
 	"time"
 
 	"github.com/LemoFoundationLtd/lemochain-core/chain/params"
@@ -101,16 +111,22 @@ type hsState struct {
 	nonce     []byte
 }
 
-func (b *bctx) makeAuthReq(key *ecdsa.PrivateKey) *hsState {
+func (b *bctx) makeAuthReq(key *ecdsa.PrivateKey) *hsState { return b.makeAuthReqOpt(key, nil, nil) }
+
+// makeAuthReqOpt: nonce / token nil = what the protocol prescribes (random nonce, ECDH token with the node's static key).
+func (b *bctx) makeAuthReqOpt(key *ecdsa.PrivateKey, nonce, token []byte) *hsState {
 	srvPub := ecies.ImportECDSAPublic(&b.n.key.PublicKey)
-	nonce := b.rnd(32)
+	if nonce == nil {
+		nonce = b.rnd(32)
+	}
 	randomPrv, err := ecies.GenerateKey(rand.Reader, crypto.S256(), nil)
 	if err != nil {
 		panic(err)
 	}
-	token, err := ecies.ImportECDSA(key).GenerateShared(srvPub, 16, 16)
-	if err != nil {
-		panic(err)
+	if token == nil {
+		if token, err = ecies.ImportECDSA(key).GenerateShared(srvPub, 16, 16); err != nil {
+			panic(err)
+		}
 	}
 	sig, err := crypto.Sign(xor(token, nonce), randomPrv.ExportECDSA())
 	if err != nil {
@@ -131,11 +147,16 @@ func (b *bctx) eciesToNode(pt []byte) []byte {
 	return raw(uint32(len(ct)), ct)
 }
 
-func hsGood(b *bctx) error {
+func hsGood(b *bctx) error { return hsGoodRun(b, nil, nil) }
+
+// hsGoodRun: the genuine client handshake (st nil = a regular request); trailing is appended inside the plaintext.
+func hsGoodRun(b *bctx, st *hsState, trailing []byte) error {
 	key := mustKey(anonKeyHex)
-	st := b.makeAuthReq(key)
+	if st == nil {
+		st = b.makeAuthReq(key)
+	}
 	b.c.cli.SetWriteDeadline(time.Now().Add(20 * time.Second))
-	if _, err := b.c.cli.Write(b.eciesToNode(enc(st.req))); err != nil {
+	if _, err := b.c.cli.Write(b.eciesToNode(append(enc(st.req), trailing...))); err != nil {
 		return fmt.Errorf("write auth request: %v", err)
 	}
 	body := b.c.waitFrame(20 * time.Second)
@@ -161,6 +182,162 @@ func hsGood(b *bctx) error {
 	b.c.aes = crypto.Keccak256(token, crypto.Keccak256(resp.RespNonce[:], st.nonce))[:16]
 	b.c.key = key
 	return nil
+}
+
+// ------------------------------------------------------------------ ECIES messages built by hand (SEC 1 as common/crypto/ecies does it:
+// secp256k1, AES-128-CTR, HMAC-SHA256, concatKDF with SHA-256), so that every part can be chosen by the attacker
+
+type eciesMsg struct {
+	R   []byte // ephemeral public key, 65 bytes
+	Em  []byte // IV || ciphertext
+	Tag []byte // HMAC-SHA256(SHA-256(Km), Em)
+}
+
+func (m *eciesMsg) bytes() []byte { return append(append(append([]byte{}, m.R...), m.Em...), m.Tag...) }
+
+// eciesBuild encrypts to pub; em(ke) returns the encrypted part (nil = regular encryption of plaintext).
+func eciesBuild(pub *ecdsa.PublicKey, plaintext []byte, em func(ke []byte) []byte) *eciesMsg {
+	R, err := ecies.GenerateKey(rand.Reader, crypto.S256(), nil)
+	if err != nil {
+		panic(err)
+	}
+	z, err := R.GenerateShared(ecies.ImportECDSAPublic(pub), 16, 16)
+	if err != nil {
+		panic(err)
+	}
+	h := sha256.New()
+	h.Write([]byte{0, 0, 0, 1})
+	h.Write(z)
+	K := h.Sum(nil)
+	ke := K[:16]
+	kmh := sha256.Sum256(K[16:])
+	m := &eciesMsg{R: elliptic.Marshal(crypto.S256(), R.PublicKey.X, R.PublicKey.Y)}
+	if em != nil {
+		m.Em = em(ke)
+	} else {
+		blk, err := aes.NewCipher(ke)
+		if err != nil {
+			panic(err)
+		}
+		m.Em = make([]byte, 16+len(plaintext))
+		rand.Read(m.Em[:16])
+		cipher.NewCTR(blk, m.Em[:16]).XORKeyStream(m.Em[16:], plaintext)
+	}
+	mac := hmac.New(sha256.New, kmh[:])
+	mac.Write(m.Em)
+	m.Tag = mac.Sum(nil)
+	return m
+}
+
+var eciesCheck sync.Once
+var eciesCheckErr error
+
+// eciesSelfTest: the hand-built messages must be what the real package decrypts (otherwise the classes built from them are vacuous).
+func eciesSelfTest() error {
+	eciesCheck.Do(func() {
+		k, err := crypto.GenerateKey()
+		if err != nil {
+			eciesCheckErr = err
+			return
+		}
+		for _, pt := range [][]byte{[]byte("x"), bytes.Repeat([]byte("self test "), 40)} {
+			got, err := ecies.ImportECDSA(k).Decrypt(eciesBuild(&k.PublicKey, pt, nil).bytes(), nil, nil)
+			if err != nil || !bytes.Equal(got, pt) {
+				eciesCheckErr = fmt.Errorf("hand-built ECIES message is not decrypted by common/crypto/ecies: %v", err)
+			}
+		}
+	})
+	return eciesCheckErr
+}
+
+// ------------------------------------------------------------------ the evil listener: the remote side of a connection the node DIALED
+
+// takeRequest reads the handshake request the node sent after dialing and decrypts it with the listener's own key.
+func (c *conn) takeRequest() string {
+	body := c.waitFrame(5 * time.Second)
+	if body == nil {
+		return "no request"
+	}
+	pt, err := ecies.ImportECDSA(mustKey(anonKeyHex)).Decrypt(body, nil, nil)
+	if err != nil {
+		return "decrypt: " + err.Error()
+	}
+	req := new(authReq)
+	if err := rlp.DecodeBytes(pt, req); err != nil {
+		return "decode: " + err.Error()
+	}
+	if p := crypto.ToECDSAPub(append([]byte{4}, req.ClientPubKey[:]...)); p == nil || p.X == nil {
+		return "bad client public key"
+	}
+	c.req, c.reqRaw = req, body
+	return "ok"
+}
+
+func (c *conn) clientPub() *ecdsa.PublicKey {
+	return crypto.ToECDSAPub(append([]byte{4}, c.req.ClientPubKey[:]...))
+}
+
+// respTo frames an ECIES message to the dialing node (the key is the ClientPubKey of its request, i.e. its node id).
+func (b *bctx) respTo(pt []byte) []byte {
+	ct := eciesBuild(b.c.clientPub(), pt, nil).bytes()
+	return raw(uint32(len(ct)), ct)
+}
+
+func pub64(k *ecdsa.PublicKey) []byte { return elliptic.Marshal(crypto.S256(), k.X, k.Y)[1:] }
+
+// srvSession does what p2p.serverEncHandshake does with a request: recover the client's random key, pick an own one and a nonce.
+func (b *bctx) srvSession() (resp *authResp, aesKey []byte, err error) {
+	evil := mustKey(anonKeyHex)
+	token, err := ecies.ImportECDSA(evil).GenerateShared(ecies.ImportECDSAPublic(b.c.clientPub()), 16, 16)
+	if err != nil {
+		return nil, nil, err
+	}
+	rp, err := crypto.Ecrecover(xor(token, b.c.req.InitNonce[:]), b.c.req.Signature[:])
+	if err != nil {
+		return nil, nil, fmt.Errorf("recover the node's random key: %v", err)
+	}
+	remoteRandom := crypto.ToECDSAPub(rp)
+	if remoteRandom == nil || remoteRandom.X == nil {
+		return nil, nil, fmt.Errorf("recovered key invalid")
+	}
+	randomPrv, err := ecies.GenerateKey(rand.Reader, crypto.S256(), nil)
+	if err != nil {
+		return nil, nil, err
+	}
+	resp = new(authResp)
+	copy(resp.RandomPubKey[:], pub64(randomPrv.ExportECDSA().Public().(*ecdsa.PublicKey)))
+	copy(resp.RespNonce[:], b.rnd(32))
+	tk, err := randomPrv.GenerateShared(ecies.ImportECDSAPublic(remoteRandom), 16, 16)
+	if err != nil {
+		return nil, nil, err
+	}
+	return resp, crypto.Keccak256(tk, crypto.Keccak256(resp.RespNonce[:], b.c.req.InitNonce[:]))[:16], nil
+}
+
+// ohsGood: the genuine response; trailing != nil is appended inside the plaintext.
+func ohsGood(trailing []byte) func(b *bctx) error {
+	return func(b *bctx) error {
+		resp, key, err := b.srvSession()
+		if err != nil {
+			return err
+		}
+		b.c.cli.SetWriteDeadline(time.Now().Add(20 * time.Second))
+		if _, err := b.c.cli.Write(b.respTo(append(enc(resp), trailing...))); err != nil {
+			return fmt.Errorf("write auth response: %v", err)
+		}
+		b.c.aes = key
+		b.c.key = mustKey(anonKeyHex)
+		return nil
+	}
+}
+
+// validPoint is the public key of a fresh key pair (64 bytes).
+func validPoint() []byte {
+	k, err := crypto.GenerateKey()
+	if err != nil {
+		panic(err)
+	}
+	return pub64(&k.PublicKey)
 }
 
 // ------------------------------------------------------------------ payload helpers
@@ -210,7 +387,184 @@ func (b *bctx) block(parent common.Hash, height uint32, tm uint32, key *ecdsa.Pr
 
 func half(x []byte) []byte { return x[:len(x)/2] }
 
+func sortStrings(x []string) { sort.Strings(x) }
+
 func now() uint32 { return uint32(time.Now().Unix()) }
+
+// txWire has the RLP layout of types.Transaction (chain/types/tx.go txdata): a remote party can put anything into any field.
+type txWire struct {
+	Type          uint16
+	Version       uint8
+	ChainID       uint16
+	From          common.Address
+	GasPayer      *common.Address `rlp:"nil"`
+	Recipient     *common.Address `rlp:"nil"`
+	RecipientName string
+	GasPrice      *big.Int
+	GasLimit      uint64
+	GasUsed       uint64
+	Amount        *big.Int
+	Data          []byte
+	Expiration    uint64
+	Message       string
+	Sigs          [][]byte
+	GasPayerSigs  [][]byte
+}
+
+// wireOf re-reads an encoded transaction field by field.
+func wireOf(tx *types.Transaction) *txWire {
+	w := new(txWire)
+	if err := rlp.DecodeBytes(enc(tx), w); err != nil {
+		panic(fmt.Sprintf("txWire does not match the transaction encoding: %v", err))
+	}
+	return w
+}
+
+// txOf turns hand-written fields back into a transaction the way the node will decode them.
+func txOf(w *txWire) *types.Transaction {
+	tx := new(types.Transaction)
+	if err := rlp.DecodeBytes(enc(w), tx); err != nil {
+		panic(fmt.Sprintf("hand-written transaction does not decode: %v", err))
+	}
+	return tx
+}
+
+func (b *bctx) sign(tx *types.Transaction, key *ecdsa.PrivateKey) *types.Transaction {
+	stx, err := (types.DefaultSigner{}).SignTx(tx, key)
+	if err != nil {
+		panic(err)
+	}
+	return stx
+}
+
+// txAny: an ordinary-looking transaction with the given type, receiver and data, signed by deputy key 1.
+func (b *bctx) txAny(txType uint16, to *common.Address, data []byte, exp uint64, chain uint16, gasLimit uint64, gasPrice, amount *big.Int, toName, msg string) *types.Transaction {
+	key := b.n.depKeys[1]
+	from := crypto.PubkeyToAddress(key.PublicKey)
+	var tx *types.Transaction
+	if to == nil {
+		tx = types.NoReceiverTransaction(from, amount, gasLimit, gasPrice, data, txType, chain, exp, toName, msg)
+	} else {
+		tx = types.NewTransaction(from, *to, amount, gasLimit, gasPrice, data, txType, chain, exp, toName, msg)
+	}
+	return b.sign(tx, key)
+}
+
+func (b *bctx) boxTx(data string, exp uint64) *types.Transaction {
+	return b.txAny(params.BoxTx, nil, []byte(data), exp, chainID, 2000000, params.MinGasPrice, big.NewInt(0), "", "")
+}
+
+func (b *bctx) boxOf(subs types.Transactions, exp uint64) *types.Transaction {
+	data, err := types.MarshalBoxData(subs)
+	if err != nil {
+		panic(err)
+	}
+	return b.boxTx(string(data), exp)
+}
+
+// absurdTx builds the transaction of the class Txs_<v> / Blocks_Deputy<v>; exp is a valid expiration time.
+func (b *bctx) absurdTx(v string, exp uint64) *types.Transaction {
+	to := common.HexToAddress("12AB")
+	ord := func() *types.Transaction { return b.tx(b.n.depKeys[1], int64(1+b.rng.Intn(1000)), exp, true) }
+	switch v {
+	case "WrongChain":
+		return b.txAny(params.OrdinaryTx, &to, nil, exp, uint16(1+b.rng.Intn(150)), 1000000, params.MinGasPrice, big.NewInt(5), "", "")
+	case "FarFuture":
+		return b.txAny(params.OrdinaryTx, &to, nil, ^uint64(0)-uint64(b.rng.Intn(3)), chainID, 1000000, params.MinGasPrice, big.NewInt(5), "", "")
+	case "UnknownType":
+		return b.txAny(uint16(0x100+b.rng.Intn(0xfeff)), &to, b.rnd(20), exp, chainID, 1000000, params.MinGasPrice, big.NewInt(5), "", "")
+	case "HugeAmount":
+		return b.txAny(params.OrdinaryTx, &to, nil, exp, chainID, 1000000, params.MinGasPrice, new(big.Int).Lsh(big.NewInt(1), uint(256+b.rng.Intn(4000))), "", "")
+	case "GasLimitMax":
+		return b.txAny(params.OrdinaryTx, &to, nil, exp, chainID, ^uint64(0), new(big.Int).Lsh(big.NewInt(1), 255), big.NewInt(5), "", "")
+	case "GasPriceZero":
+		return b.txAny(params.OrdinaryTx, &to, nil, exp, chainID, 1000000, big.NewInt(0), big.NewInt(5), "", "")
+	case "SigZero":
+		w := wireOf(ord())
+		w.Sigs = [][]byte{make([]byte, 65)}
+		return txOf(w)
+	case "SigShort":
+		w := wireOf(ord())
+		w.Sigs = [][]byte{b.rnd(b.rng.Intn(65)), {}}
+		w.GasPayerSigs = [][]byte{b.rnd(3)}
+		return txOf(w)
+	case "ManySigs":
+		w := wireOf(ord())
+		for i := 0; i < 300; i++ {
+			w.Sigs = append(w.Sigs, b.rnd(65))
+		}
+		return txOf(w)
+	case "HugeMessage":
+		return b.txAny(params.OrdinaryTx, &to, nil, exp, chainID, 1000000, params.MinGasPrice, big.NewInt(5), "", string(make([]byte, 100000)))
+	case "BadToName":
+		names := []string{"bad name!", "\x00\xff\xfe", strings.Repeat("n", 5000), "a/../b"}
+		return b.txAny(params.OrdinaryTx, &to, nil, exp, chainID, 1000000, params.MinGasPrice, big.NewInt(5), names[b.rng.Intn(len(names))], "")
+	case "DataGarbageJson": // the types whose data is JSON
+		kinds := []uint16{params.CreateAssetTx, params.IssueAssetTx, params.ReplenishAssetTx, params.ModifyAssetTx, params.TransferAssetTx, params.ModifySignersTx, params.RegisterTx}
+		k := kinds[b.rng.Intn(len(kinds))]
+		junk := []string{"{{{{", "null", "[null]", "{\"a\":", "\xff\xfe", "{}", "[]", "0"}
+		var rcv *common.Address
+		if types.IsToExist(k, &to) {
+			rcv = &to
+		}
+		return b.txAny(k, rcv, []byte(junk[b.rng.Intn(len(junk))]), exp, chainID, 2000000, params.MinGasPrice, big.NewInt(0), "", "")
+	case "AssetAbsurd":
+		a := &types.Asset{Category: uint32(b.rng.Intn(1 << 30)), IsDivisible: b.rng.Intn(2) == 0, Decimal: ^uint32(0), TotalSupply: big.NewInt(-5),
+			IsReplenishable: true, Profile: types.Profile{"": "", strings.Repeat("k", 3000): strings.Repeat("v", 3000)}}
+		data, err := json.Marshal(a)
+		if err != nil {
+			panic(err)
+		}
+		return b.txAny(params.CreateAssetTx, nil, data, exp, chainID, 2000000, params.MinGasPrice, big.NewInt(0), "", "")
+	case "BoxEmpty":
+		return b.boxTx(`{"subTxList":[]}`, exp)
+	case "BoxGarbageJson":
+		junk := []string{"{{{", `{"subTxList":[{}]}`, `{"subTxList":null}`, `{"subTxList":"x"}`, "[]", "null", `{"subTxList":[[]]}`, `{"subTxList":[1]}`}
+		return b.boxTx(junk[b.rng.Intn(len(junk))], exp)
+	case "BoxNested":
+		return b.boxOf(types.Transactions{b.boxOf(types.Transactions{ord()}, exp)}, exp)
+	case "BoxSubExpired":
+		return b.boxOf(types.Transactions{b.tx(b.n.depKeys[2], 7, 1000, true)}, exp)
+	case "BoxNullSub": // a sub transaction that is JSON null (not signed through the repository's signer: hashing such a transaction is what fails)
+		junk := []string{`{"subTxList":[null]}`, `{"subTxList":[null,null]}`}
+		from := crypto.PubkeyToAddress(b.n.depKeys[1].PublicKey)
+		w := wireOf(types.NoReceiverTransaction(from, big.NewInt(0), 2000000, params.MinGasPrice, []byte(junk[b.rng.Intn(len(junk))]), params.BoxTx, chainID, exp, "", ""))
+		w.Sigs = [][]byte{b.rnd(65)}
+		return txOf(w)
+	case "Unsigned":
+		return b.tx(b.n.depKeys[1], 5, exp, false)
+	case "Expired":
+		return b.tx(b.n.depKeys[1], 5, 1000, true)
+	}
+	panic("no absurd transaction " + v)
+}
+
+var absurdTxs = map[string]bool{"WrongChain": true, "FarFuture": true, "UnknownType": true, "HugeAmount": true, "GasLimitMax": true, "GasPriceZero": true,
+	"SigZero": true, "SigShort": true, "ManySigs": true, "HugeMessage": true, "BadToName": true, "DataGarbageJson": true, "AssetAbsurd": true,
+	"BoxEmpty": true, "BoxGarbageJson": true, "BoxNested": true, "BoxSubExpired": true, "BoxNullSub": true}
+
+// resign signs the header again after a field was changed.
+func resign(blk *types.Block, key *ecdsa.PrivateKey) *types.Block {
+	blk.Header.SignData = nil
+	h := blk.Header.Copy() // drops the cached signer
+	hash := h.Hash()
+	sig, err := crypto.Sign(hash[:], key)
+	if err != nil {
+		panic(err)
+	}
+	h.SignData = sig
+	blk.Header = h
+	return blk
+}
+
+func (b *bctx) depSig(hash common.Hash, key *ecdsa.PrivateKey) (sd types.SignData) {
+	sig, err := crypto.Sign(hash[:], key)
+	if err != nil {
+		panic(err)
+	}
+	copy(sd[:], sig)
+	return sd
+}
 
 // ------------------------------------------------------------------ the classes
 
@@ -297,17 +651,26 @@ func (b *bctx) build(cls string) (p plan, ok bool) {
 		}
 	}
 
+	nodePub := &b.n.key.PublicKey
+	framed := func(m *eciesMsg) []byte { x := m.bytes(); return raw(uint32(len(x)), x) }
+	if strings.HasPrefix(cls, "Ohs") && b.c.req == nil {
+		return plan{special: func(*bctx) error { return fmt.Errorf("the evil listener has no request to answer") }}, true
+	}
+
+	if strings.HasPrefix(cls, "Txs_") && absurdTxs[cls[4:]] {
+		return one(b.msg(cTxs, enc(types.Transactions{b.absurdTx(cls[4:], uint64(now())+600)})))
+	}
+
 	switch cls {
-	// ---------------------------------------------------------- before the handshake (node is in readHandshakeBuf)
-	case "HsGood":
-		return plan{special: hsGood}, true
+	// ---------------------------------------------------------- the handshake packet reader (node is in readHandshakeBuf): the same
+	// bytes serve as a request (node accepted) and as a response (node dialed); both are ECIES messages to the node's static key
 	case "HsBadMagic":
 		return one(append([]byte{0x5a, 0x49, 0, 0, 0, 16}, b.rnd(16)...))
 	case "HsZeroLen":
 		return one(raw(0, nil))
-	case "HsOverLen": // above the handshake reader's own limit of today (1 GiB)
+	case "HsOverLen": // above every limit the handshake reader ever had (1 GiB)
 		return one(raw((1<<30)+1, nil))
-	case "HsHugeLenTrunc": // length field 1 GiB (accepted by the reader), ten bytes, EOF
+	case "HsHugeLenTrunc": // length field 1 GiB, ten bytes, EOF
 		return cut(raw(1<<30, b.rnd(10)))
 	case "HsLen64MTrunc":
 		return cut(raw(64<<20, b.rnd(10)))
@@ -320,14 +683,61 @@ func (b *bctx) build(cls string) (p plan, ok bool) {
 	case "HsShortBody": // shorter than any ECIES message (65+16+32)
 		k := 1 + b.rng.Intn(100)
 		return one(raw(uint32(k), b.rnd(k)))
-	case "HsEciesEmpty":
-		return one(b.eciesToNode(nil))
-	case "HsEciesGarbageRlp":
-		return one(b.eciesToNode(b.rnd(1 + b.rng.Intn(200))))
-	case "HsEciesShortRlp":
-		return one(b.eciesToNode(enc([]interface{}{b.rnd(65), b.rnd(3)})))
+	case "HsMaxLenGarbage": // the largest packet the handshake reader admits, starting like an uncompressed point
+		x := b.rnd(64 << 10)
+		x[0] = 4
+		return plan{chunks: [][]byte{raw(uint32(len(x)), x)}, noSplit: true}, true
+	case "HsEciesBadMac":
+		m := eciesBuild(nodePub, enc(b.makeAuthReq(mustKey(anonKeyHex)).req), nil)
+		m.Tag[b.rng.Intn(32)] ^= byte(1 << uint(b.rng.Intn(8)))
+		return one(framed(m))
+	case "HsEciesWrongKey": // a flawless message for somebody else
+		return one(framed(eciesBuild(&b.n.depKeys[1].PublicKey, enc(b.makeAuthReq(mustKey(anonKeyHex)).req), nil)))
+	case "HsEciesEphemOffCurve": // the ephemeral key is no curve point (random, zero, or a point with a wrong y)
+		m := eciesBuild(nodePub, b.rnd(161), nil)
+		switch b.rng.Intn(3) {
+		case 0:
+			copy(m.R[1:], b.rnd(64))
+		case 1:
+			copy(m.R[1:], make([]byte, 64))
+		default:
+			m.R[64] ^= 1
+		}
+		return one(framed(m))
+	case "HsEciesEphemCompressed": // the compressed forms 02/03 are admitted by the length check
+		m := eciesBuild(nodePub, b.rnd(161), nil)
+		m.R[0] = byte(2 + b.rng.Intn(2))
+		return one(framed(m))
+	case "HsEciesShortEm": // a valid MAC over an encrypted part of 1..15 bytes (shorter than the IV)
+		if err := eciesSelfTest(); err != nil {
+			return plan{special: func(*bctx) error { return err }}, true
+		}
+		k := 1 + b.rng.Intn(15)
+		return one(framed(eciesBuild(nodePub, nil, func([]byte) []byte { return b.rnd(k) })))
+	case "HsEciesEmptyPlain": // the encrypted part is the IV alone: empty plaintext
+		return one(framed(eciesBuild(nodePub, nil, nil)))
+	case "HsEciesEmptyList":
+		return one(framed(eciesBuild(nodePub, []byte{0xc0}, nil)))
+	case "HsEciesGarbageRlp": // random plaintext that does not start a list
+		g := b.rnd(1 + b.rng.Intn(200))
+		g[0] = byte(b.rng.Intn(0xc0))
+		return one(b.eciesToNode(g))
+	case "HsEciesShortRlp": // a list whose first field is too short for either packet type
+		return one(b.eciesToNode(enc([]interface{}{b.rnd(63), b.rnd(3)})))
 	case "HsEciesWrongType":
 		return one(b.eciesToNode(enc("just a string")))
+	case "HsEciesBigPlain": // the genuine packet of the phase followed by 60 KiB inside the plaintext
+		if b.c.dir == "out" {
+			if b.c.req == nil {
+				return plan{special: func(*bctx) error { return fmt.Errorf("the evil listener has no request to answer") }}, true
+			}
+			return plan{special: ohsGood(b.rnd(60 << 10))}, true
+		}
+		return plan{special: func(b *bctx) error { return hsGoodRun(b, nil, b.rnd(60<<10)) }}, true
+
+	// ---------------------------------------------------------- the node accepted: content of the handshake request
+	case "HsGood":
+		return plan{special: hsGood}, true
 	case "HsZeroRequest":
 		return one(b.eciesToNode(enc(new(authReq))))
 	case "HsBadSig":
@@ -338,14 +748,100 @@ func (b *bctx) build(cls string) (p plan, ok bool) {
 		st := b.makeAuthReq(mustKey(anonKeyHex))
 		st.req.Signature[64] = byte(4 + b.rng.Intn(250))
 		return one(b.eciesToNode(enc(st.req)))
+	case "HsSigZero":
+		st := b.makeAuthReq(mustKey(anonKeyHex))
+		st.req.Signature = [65]byte{}
+		return one(b.eciesToNode(enc(st.req)))
 	case "HsPubNotOnCurve":
 		st := b.makeAuthReq(mustKey(anonKeyHex))
 		copy(st.req.ClientPubKey[:], b.rnd(64))
+		return one(b.eciesToNode(enc(st.req)))
+	case "HsPubZero":
+		st := b.makeAuthReq(mustKey(anonKeyHex))
+		st.req.ClientPubKey = [64]byte{}
+		return one(b.eciesToNode(enc(st.req)))
+	case "HsPubXOnly": // x of a curve point with another y
+		st := b.makeAuthReq(mustKey(anonKeyHex))
+		st.req.ClientPubKey[63] ^= 1
 		return one(b.eciesToNode(enc(st.req)))
 	case "HsSelfId": // claims the node's own identity (cannot know its key: signature over a wrong token)
 		st := b.makeAuthReq(mustKey(anonKeyHex))
 		copy(st.req.ClientPubKey[:], crypto.PrivateKeyToNodeID(b.n.key))
 		return one(b.eciesToNode(enc(st.req)))
+	case "HsSigOtherToken": // a well-formed signature over something else than the shared token
+		return one(b.eciesToNode(enc(b.makeAuthReqOpt(mustKey(anonKeyHex), nil, b.rnd(32)).req)))
+	case "HsClaimDeputy": // claims a deputy's identity without its key
+		st := b.makeAuthReq(mustKey(anonKeyHex))
+		copy(st.req.ClientPubKey[:], crypto.PrivateKeyToNodeID(b.n.depKeys[1]))
+		return one(b.eciesToNode(enc(st.req)))
+	case "HsZeroNonce": // protocol-conformant but for the nonce
+		return plan{special: func(b *bctx) error {
+			return hsGoodRun(b, b.makeAuthReqOpt(mustKey(anonKeyHex), make([]byte, 32), nil), nil)
+		}}, true
+	case "HsNonceShort", "HsNonceLong", "HsExtraField":
+		st := b.makeAuthReq(mustKey(anonKeyHex))
+		l := []interface{}{st.req.Signature[:], st.req.ClientPubKey[:], st.req.InitNonce[:]}
+		switch cls {
+		case "HsNonceShort":
+			l[2] = b.rnd(b.rng.Intn(32))
+		case "HsNonceLong":
+			l[2] = b.rnd(33 + b.rng.Intn(200))
+		default:
+			l = append(l, b.rnd(1+b.rng.Intn(40)), []interface{}{})
+		}
+		return one(b.eciesToNode(enc(l)))
+	case "HsResponseAsRequest":
+		r := new(authResp)
+		copy(r.RandomPubKey[:], validPoint())
+		copy(r.RespNonce[:], b.rnd(32))
+		return one(b.eciesToNode(enc(r)))
+
+	// ---------------------------------------------------------- the node dialed: content of the handshake response
+	case "OhsGood":
+		return plan{special: ohsGood(nil)}, true
+	case "OhsPubOffCurve", "OhsPubZero", "OhsPubXOnly", "OhsPubNodeStatic", "OhsPubGenerator", "OhsZeroNonce":
+		r := new(authResp)
+		copy(r.RandomPubKey[:], validPoint())
+		copy(r.RespNonce[:], b.rnd(32))
+		switch cls {
+		case "OhsPubOffCurve": // 64 bytes that are no curve point (64 x 0x01 is one instance)
+			if b.rng.Intn(3) == 0 {
+				copy(r.RandomPubKey[:], bytes.Repeat([]byte{1}, 64))
+			} else {
+				copy(r.RandomPubKey[:], b.rnd(64))
+			}
+		case "OhsPubZero":
+			r.RandomPubKey = [64]byte{}
+		case "OhsPubXOnly":
+			r.RandomPubKey[63] ^= 1
+		case "OhsPubNodeStatic":
+			copy(r.RandomPubKey[:], pub64(nodePub))
+		case "OhsPubGenerator":
+			p := crypto.S256().Params()
+			copy(r.RandomPubKey[:], elliptic.Marshal(crypto.S256(), p.Gx, p.Gy)[1:])
+		case "OhsZeroNonce":
+			r.RespNonce = [32]byte{}
+		}
+		return one(b.respTo(enc(r)))
+	case "OhsPubEmpty", "OhsNonceShort", "OhsNonceLong", "OhsNonceMissing", "OhsExtraField":
+		l := []interface{}{validPoint(), b.rnd(32)}
+		switch cls {
+		case "OhsPubEmpty":
+			l[0] = []byte{}
+		case "OhsNonceShort":
+			l[1] = b.rnd(b.rng.Intn(32))
+		case "OhsNonceLong":
+			l[1] = b.rnd(33 + b.rng.Intn(200))
+		case "OhsNonceMissing":
+			l = l[:1]
+		default:
+			l = append(l, b.rnd(1+b.rng.Intn(40)), []interface{}{})
+		}
+		return one(b.respTo(enc(l)))
+	case "OhsEchoRequest": // the node's own request sent back (it is encrypted to the listener's key, not to the node's)
+		return one(raw(uint32(len(b.c.reqRaw)), b.c.reqRaw))
+	case "OhsRequestAsResponse": // a request-shaped packet (65, 64, 32 bytes) as the answer
+		return one(b.respTo(enc(b.makeAuthReq(mustKey(anonKeyHex)).req)))
 
 	// ---------------------------------------------------------- raw / encrypted frames after the handshake (node is in Peer.readLoop)
 	case "FrBadMagic":
@@ -405,6 +901,18 @@ func (b *bctx) build(cls string) (p plan, ok bool) {
 		return one(b.msg(cPhs, b.phs(1, b.hash(), b.status(0, b.hash(), 0, b.hash()))))
 	case "Phs_WrongCode":
 		return one(b.msg(cConfirm, b.goodPayload("Phs")))
+	case "Phs_VersionZero", "Phs_VersionMax": // a version the node cannot know
+		v := uint32(0)
+		if cls == "Phs_VersionMax" {
+			v = ^uint32(0) - uint32(b.rng.Intn(2))
+		}
+		h := &network.ProtocolHandshake{ChainID: chainID, GenesisHash: g.Hash(), NodeVersion: v, LatestStatus: b.status(0, g.Hash(), 0, g.Hash())}
+		return one(b.msg(cPhs, h.Bytes()))
+	case "Phs_ZeroHashes":
+		return one(b.msg(cPhs, b.phs(chainID, common.Hash{}, b.status(uint32(1+b.rng.Intn(50)), common.Hash{}, 0, common.Hash{}))))
+	case "Phs_ExtraField": // one more element inside the list
+		st := b.status(0, g.Hash(), 0, g.Hash())
+		return one(b.msg(cPhs, enc([]interface{}{uint(chainID), g.Hash(), uint(params.VersionUint()), st, b.rnd(8)})))
 
 	// ---------------------------------------------------------- decodable but absurd payloads
 	case "Status_Higher":
@@ -413,6 +921,10 @@ func (b *bctx) build(cls string) (p plan, ok bool) {
 		return one(b.msg(cStatus, enc(b.status(^uint32(0), b.hash(), ^uint32(0), b.hash()))))
 	case "Status_StaGtCur":
 		return one(b.msg(cStatus, enc(b.status(3, b.hash(), 900, b.hash()))))
+	case "Status_ZeroHashes":
+		return one(b.msg(cStatus, enc(b.status(1000, common.Hash{}, 900, common.Hash{}))))
+	case "Hash_ZeroHash":
+		return one(b.msg(cHash, enc(&network.BlockHashData{Height: uint32(1 + b.rng.Intn(50)), Hash: common.Hash{}})))
 	case "Hash_Max":
 		return one(b.msg(cHash, enc(&network.BlockHashData{Height: ^uint32(0), Hash: b.hash()})))
 	case "Hash_Known":
@@ -425,6 +937,9 @@ func (b *bctx) build(cls string) (p plan, ok bool) {
 		return one(b.msg(cTxs, enc(types.Transactions{b.tx(b.n.depKeys[1], 5, uint64(now())+600, false)})))
 	case "Txs_NilElem":
 		return one(b.msg(cTxs, []byte{0xc2, 0xc0, 0xc0}))
+	case "Txs_Duplicate": // the same signed transaction several times in one message
+		t := b.tx(b.n.depKeys[1], 9, uint64(now())+600, true)
+		return one(b.msg(cTxs, enc(types.Transactions{t, t, t, t})))
 	case "Txs_Many":
 		var txs types.Transactions
 		for i := 0; i < 200; i++ {
@@ -445,6 +960,12 @@ func (b *bctx) build(cls string) (p plan, ok bool) {
 		return one(b.msg(cGetBlkC, enc(&network.GetBlocksData{From: 0, To: ^uint32(0) - 1})))
 	case "GetBlocksCL_FromGtTo":
 		return one(b.msg(cGetBlkC, enc(&network.GetBlocksData{From: 9, To: 3})))
+	case "GetBlocksCL_Beyond":
+		return one(b.msg(cGetBlkC, enc(&network.GetBlocksData{From: 5, To: 10})))
+	case "GetBlocksCL_Range":
+		return one(b.msg(cGetBlkC, enc(&network.GetBlocksData{From: 0, To: 25})))
+	case "GetBlocksCL_Wrap":
+		return one(b.msg(cGetBlkC, enc(&network.GetBlocksData{From: 0, To: ^uint32(0)})))
 	case "Blocks_EmptyList":
 		return one(b.msg(cBlocks, enc(types.Blocks{})))
 	case "Blocks_NilBlock": // RLP [ [] ] : a list with one empty element
@@ -473,6 +994,66 @@ func (b *bctx) build(cls string) (p plan, ok bool) {
 		return one(b.msg(cBlocks, enc(types.Blocks{blk})))
 	case "Blocks_DeputyPlausible": // right slot arithmetic is not attempted: a deputy-signed, otherwise plausible child of genesis
 		return one(b.msg(cBlocks, enc(types.Blocks{b.block(g.Hash(), 1, now()-10, b.n.depKeys[1+b.rng.Intn(2)], "", nil)})))
+	case "Blocks_EmptyHeader": // [[ [], [], [], [], [] ]]: a block whose header is the empty list
+		return one(b.msg(cBlocks, []byte{0xc6, 0xc5, 0xc0, 0xc0, 0xc0, 0xc0, 0xc0}))
+	case "Blocks_ChildSigShort", "Blocks_ChildSigLong": // the signature field is a byte string of any length
+		blk := b.block(g.Hash(), 1, now()-10, nil, "", nil)
+		if cls == "Blocks_ChildSigShort" {
+			blk.Header.SignData = b.rnd(b.rng.Intn(65))
+		} else {
+			blk.Header.SignData = b.rnd(66 + b.rng.Intn(3000))
+		}
+		return one(b.msg(cBlocks, enc(types.Blocks{blk})))
+	case "Blocks_DupInMsg":
+		blk := b.block(g.Hash(), 1, now()-10, b.n.depKeys[1], "", nil)
+		return one(b.msg(cBlocks, enc(types.Blocks{blk, blk, blk})))
+	case "Blocks_DeputyGasMax":
+		blk := b.block(g.Hash(), 1, now()-10, b.n.depKeys[1], "", nil)
+		blk.Header.GasLimit, blk.Header.GasUsed = ^uint64(0), ^uint64(0)
+		return one(b.msg(cBlocks, enc(types.Blocks{resign(blk, b.n.depKeys[1])})))
+	case "Blocks_DeputyManyConfirms":
+		blk := b.block(g.Hash(), 1, now()-10, b.n.depKeys[1], "", nil)
+		for i := 0; i < 500; i++ {
+			var sd types.SignData
+			copy(sd[:], b.rnd(65))
+			if i%50 == 0 {
+				sd = b.depSig(blk.Hash(), b.n.depKeys[1+b.rng.Intn(2)]) // and the same deputies again and again
+			}
+			blk.Confirms = append(blk.Confirms, sd)
+		}
+		return one(b.msg(cBlocks, enc(types.Blocks{blk})))
+	case "Blocks_DeputyAbsurdDeputyNodes": // a deputy list on a block that is no snapshot block, with entries of every kind
+		blk := b.block(g.Hash(), 1, now()-10, b.n.depKeys[1], "", nil)
+		blk.DeputyNodes = types.DeputyNodes{
+			{MinerAddress: common.Address{}, NodeID: nil, Rank: ^uint32(0), Votes: new(big.Int).Lsh(big.NewInt(1), 4000)},
+			{MinerAddress: crypto.PubkeyToAddress(b.n.key.PublicKey), NodeID: b.rnd(3), Rank: 0, Votes: big.NewInt(0)},
+			{MinerAddress: crypto.PubkeyToAddress(b.n.key.PublicKey), NodeID: crypto.PrivateKeyToNodeID(b.n.key), Rank: 0, Votes: big.NewInt(1)},
+		}
+		blk.Header.DeputyRoot = b.rnd(32)
+		return one(b.msg(cBlocks, enc(types.Blocks{resign(blk, b.n.depKeys[1])})))
+	case "Blocks_DeputyLongDeputyRoot":
+		blk := b.block(g.Hash(), 1, now()-10, b.n.depKeys[1], "", nil)
+		blk.Header.DeputyRoot = b.rnd(33 + b.rng.Intn(10000))
+		return one(b.msg(cBlocks, enc(types.Blocks{resign(blk, b.n.depKeys[1])})))
+	case "Blocks_DeputyTimeMax":
+		return one(b.msg(cBlocks, enc(types.Blocks{b.block(g.Hash(), 1, ^uint32(0)-uint32(b.rng.Intn(2)), b.n.depKeys[1], "", nil)})))
+	case "Blocks_DeputyBadTx": // the transaction root is right, the transaction is one the pool would never take
+		var names []string
+		for k := range absurdTxs {
+			if k != "BoxNullSub" {
+				names = append(names, k)
+			}
+		}
+		names = append(names, "Unsigned", "Expired")
+		sortStrings(names)
+		tm := now() - 10
+		txs := types.Transactions{b.absurdTx(names[b.rng.Intn(len(names))], uint64(tm)+600)}
+		return one(b.msg(cBlocks, enc(types.Blocks{b.block(g.Hash(), 1, tm, b.n.depKeys[1+b.rng.Intn(2)], "", txs)})))
+	case "Blocks_DeputyBoxNullSub": // (its transaction root cannot be computed by anybody)
+		tm := now() - 10
+		blk := b.block(g.Hash(), 1, tm, b.n.depKeys[1+b.rng.Intn(2)], "", nil)
+		blk.Txs = types.Transactions{b.absurdTx("BoxNullSub", uint64(tm)+600)}
+		return one(b.msg(cBlocks, enc(types.Blocks{blk})))
 	case "Blocks_Flood": // 10241 orphans at distinct heights in one message
 		blks := make(types.Blocks, 0, 10241)
 		for i := 0; i < 10241; i++ {
@@ -483,6 +1064,13 @@ func (b *bctx) build(cls string) (p plan, ok bool) {
 		d := &network.BlockConfirmData{Hash: g.Hash(), Height: 0}
 		copy(d.SignInfo[:], b.rnd(65))
 		return one(b.msg(cConfirm, enc(d)))
+	case "Confirm_ZeroSig":
+		return one(b.msg(cConfirm, enc(&network.BlockConfirmData{Hash: g.Hash(), Height: 0})))
+	case "Confirm_DeputyKnown": // a deputy's valid signature for a block the node has
+		return one(b.msg(cConfirm, enc(&network.BlockConfirmData{Hash: g.Hash(), Height: 0, SignInfo: b.depSig(g.Hash(), b.n.depKeys[1+b.rng.Intn(2)])})))
+	case "Confirm_DeputyUnknown": // ... for a block nobody has, at a wrong height
+		h := b.hash()
+		return one(b.msg(cConfirm, enc(&network.BlockConfirmData{Hash: h, Height: uint32(b.rng.Intn(5)), SignInfo: b.depSig(h, b.n.depKeys[1])})))
 	case "Confirm_MaxHeight":
 		d := &network.BlockConfirmData{Hash: b.hash(), Height: ^uint32(0)}
 		return one(b.msg(cConfirm, enc(d)))
@@ -500,6 +1088,21 @@ func (b *bctx) build(cls string) (p plan, ok bool) {
 	case "Confirms_Unknown":
 		d := &network.BlockConfirms{Height: 9, Hash: b.hash(), Pack: make([]types.SignData, 3)}
 		return one(b.msg(cConfs, enc(d)))
+	case "Confirms_EmptyPack":
+		return one(b.msg(cConfs, enc(&network.BlockConfirms{Height: 0, Hash: g.Hash(), Pack: []types.SignData{}})))
+	case "Confirms_DeputyKnown":
+		d := &network.BlockConfirms{Height: 0, Hash: g.Hash(), Pack: []types.SignData{b.depSig(g.Hash(), b.n.depKeys[1]), b.depSig(g.Hash(), b.n.depKeys[2]), b.depSig(g.Hash(), b.n.depKeys[1])}}
+		return one(b.msg(cConfs, enc(d)))
+	case "Confirms_DupPack": // one signature a thousand times
+		d := &network.BlockConfirms{Height: 0, Hash: g.Hash()}
+		sd := b.depSig(g.Hash(), b.n.depKeys[1])
+		for i := 0; i < 1000; i++ {
+			d.Pack = append(d.Pack, sd)
+		}
+		return one(b.msg(cConfs, enc(d)))
+	case "Confirms_MaxHeight":
+		d := &network.BlockConfirms{Height: ^uint32(0), Hash: b.hash(), Pack: make([]types.SignData, 2)}
+		return one(b.msg(cConfs, enc(d)))
 	case "Confirms_HugePack":
 		d := &network.BlockConfirms{Height: 0, Hash: g.Hash(), Pack: make([]types.SignData, 20000)}
 		for i := range d.Pack {
@@ -512,6 +1115,39 @@ func (b *bctx) build(cls string) (p plan, ok bool) {
 		return one(b.msg(cDiscReq, enc(&network.DiscoverReqData{Sequence: ^uint(0)})))
 	case "DiscRes_Invalid":
 		return one(b.msg(cDiscRes, enc(&network.DiscoverResData{Sequence: 1, Nodes: []string{"not a node", ""}})))
+	case "DiscRes_EmptyList":
+		return one(b.msg(cDiscRes, enc(&network.DiscoverResData{Sequence: 1, Nodes: []string{}})))
+	case "DiscRes_SelfId", "DiscRes_OffCurveId", "DiscRes_ZeroId", "DiscRes_BadPort", "DiscRes_BadIp", "DiscRes_ManyAts", "DiscRes_Dup", "DiscRes_HugeString", "DiscRes_NonHexId":
+		id := fmt.Sprintf("%x", crypto.PrivateKeyToNodeID(b.n.depKeys[2]))
+		var nodes []string
+		switch cls {
+		case "DiscRes_SelfId": // the node's own id
+			nodes = []string{fmt.Sprintf("%x@10.1.2.3:7001", crypto.PrivateKeyToNodeID(b.n.key))}
+		case "DiscRes_OffCurveId": // 128 hex digits that are no curve point
+			nodes = []string{fmt.Sprintf("%x@10.1.2.3:7001", b.rnd(64))}
+		case "DiscRes_ZeroId":
+			nodes = []string{strings.Repeat("0", 128) + "@10.1.2.3:7001"}
+		case "DiscRes_BadPort":
+			ports := []string{"99999", "-1", "0", "65536", "7001x", "", "4294967297", "0x10"}
+			nodes = []string{id + "@10.1.2.3:" + ports[b.rng.Intn(len(ports))]}
+		case "DiscRes_BadIp":
+			ips := []string{"999.1.1.1", "", "::1", "localhost", "1.2.3", "1.2.3.4.5", "[fe80::1]"}
+			nodes = []string{id + "@" + ips[b.rng.Intn(len(ips))] + ":7001"}
+		case "DiscRes_ManyAts":
+			nodes = []string{id + "@10.1.2.3:7001@" + id, "@", "@@", id + "@"}
+		case "DiscRes_Dup":
+			for i := 0; i < 50; i++ {
+				nodes = append(nodes, id+"@10.1.2.3:7001")
+			}
+		case "DiscRes_HugeString": // one entry of 1 MiB
+			nodes = []string{strings.Repeat("a", 1<<20) + "@10.1.2.3:7001"}
+		case "DiscRes_NonHexId": // an id part of the right length (128) that is not 128 hex digits
+			ids := []string{strings.Repeat("z", 128), "0x" + id[:126], id[:127] + "g", strings.Repeat(" ", 128), id[:64] + strings.Repeat("-", 64)}
+			nodes = []string{ids[b.rng.Intn(len(ids))] + "@1.2.3.4:5"}
+		}
+		p := plan{chunks: [][]byte{b.msg(cDiscRes, enc(&network.DiscoverResData{Sequence: 1, Nodes: nodes}))}}
+		p.noSplit = cls == "DiscRes_HugeString"
+		return p, true
 	case "DiscRes_Many":
 		d := &network.DiscoverResData{Sequence: 1}
 		for i := 0; i < 2000; i++ {
